@@ -10,7 +10,7 @@ use serde_json::{json, Value as J};
 
 pub static PROP: Prop = Prop {
     id: "C12",
-    rule: "cases: programs from the flat generator (all 32 infix operators, `not OP`, prefix/postfix over atoms and parenthesised groups, conditionals in operand/condition/branch position, strings containing either quote, calls, lists, maps with conditional keys, statement chains; names are never operator words), plus exhaustive placements: every infix operator as parenthesised left and right child of every other (32x32x2), `not OP` forms under every operator, prefix and postfix operators over parenthesised infix/conditional/prefix/postfix operands, conditionals as operand, condition and branch. Oracle: t = parse(s); s2 = t.expr(); parse(s2) must be Ok(t2) with t2 == t (structural, numbers by mantissa and scale); t2.expr() == s2. Non-trivial: the tree has a compound node (infix, not-infix, conditional, prefix, postfix) directly under an operator or conditional node, or a string containing a quote; distinct by tree skeleton.",
+    rule: "cases: programs from the flat generator (all 32 infix operators, `not OP`, prefix/postfix over atoms and parenthesised groups, conditionals in operand/condition/branch position, strings containing either quote, calls, lists, maps with conditional keys, statement chains; names are never operator words; in a third of the cases a user operator vh_rt is re-registered with another precedence/associativity first and used heavily), plus exhaustive placements: every infix operator as parenthesised left and right child of every other (32x32x2), `not OP` forms under every operator, prefix and postfix operators over parenthesised infix/conditional/prefix/postfix operands, conditionals as operand, condition and branch. Oracle: t = parse(s); s2 = t.expr(); parse(s2) must be Ok(t2) with t2 == t (structural, numbers by mantissa and scale); t2.expr() == s2. Non-trivial: the tree has a compound node (infix, not-infix, conditional, prefix, postfix) directly under an operator or conditional node, or a string containing a quote; distinct by tree skeleton.",
     assumptions: &["programs come from the generator's well-formed grammar; a program the engine rejects is counted as excluded (C02 reports it)"],
     budget,
     setup: noop_setup,
@@ -139,8 +139,29 @@ fn compound_under_operator(r: &crate::model::R) -> bool {
 
 fn case(src: &mut Src, st: &mut Stats, _env: &Env) -> CaseResult {
     st.eval();
-    let tab = OpTable::builtin();
-    let cfg = SynCfg::new(&tab);
+    let mut tab = OpTable::builtin();
+    let dynamic = src.chance(1, 3);
+    if dynamic {
+        // a user operator whose precedence / associativity changes from case to case: the
+        // rendering must follow the registration made last
+        let prec = *src.choose(&[115i64, 45, 125, 55, 25, 205, 65]);
+        let right = src.chance(1, 2);
+        expression_engine::register_infix_op(
+            "vh_rt",
+            prec as i32,
+            expression_engine::InfixOpType::CALC,
+            if right { expression_engine::InfixOpAssociativity::RIGHT } else { expression_engine::InfixOpAssociativity::LEFT },
+            std::sync::Arc::new(|a, _| Ok(a)),
+        );
+        tab.infix.insert("vh_rt".to_string(), (prec, right));
+        st.hist("re-registered-operator");
+    }
+    let mut cfg = SynCfg::new(&tab);
+    if dynamic {
+        for _ in 0..8 {
+            cfg.infix.push("vh_rt".to_string());
+        }
+    }
     let toks = gen_program(src, &cfg);
     let text = join(&toks);
     let (key, nt) = match parse_tokens(&toks, &tab) {
